@@ -34,6 +34,12 @@ CLAIMED = {
     text='The real t2thermo routines run over liquid, steam and saturation grids and random states; each result is compared online with the IAPWS97 routine at the same state inside envelopes frozen at about twice the largest inter-formulation difference observed on the unchanged tree, the single-potential identity and the Clausius-Clapeyron relation are evaluated on returned values, tsat must invert sat, the bounds flag must return None exactly outside the documented IFC-67 region 1/2 ranges (both sides of every limit), the two region classifiers must agree below 350 degC and above the critical temperature away from the boundary curves, and the separated steam fraction must stay in [0,1], be monotone over a 200-point enthalpy ladder and reach 0 and 1 at the ends, for one and two stages. Exploration over sampled states.',
     note='Trusted: the envelopes (calibrated once on the unchanged tree, printed with the observed maxima in the evidence); own transcription of the documented ranges and of the IFC-67 L-function. Changes smaller than the envelope (e.g. 1e-4 relative in a coefficient) are below the resolution of the cross-check unless they break an identity.',
     design='DESIGN.md §3 C15'),
+
+ 'C08': dict(
+    technique='runtime history monitor: bounded exhaustive replay of edit sequences on real t2grid objects against an executable list/dict reference model + structural invariants at quiescent points',
+    text='Every sequence of enabled edit operations up to depth 4 (sparse start states) / 3 (rich start states) over a universe of 4 block names and 2 rock types - including every block permutation, every connection permutation x reversal subset and every collision-free injective rename map (swaps, cycles, chains) - is replayed from scratch on a real t2grid; after every step the live object is projected and compared with a reference model written from the user guide and the structural invariants of the property are evaluated on it. Random sequences of up to 60 operations on grids built from geometries add minc, +, embed, reorder(geo), check(fix), with the same invariants attached as a quiescent contract to every public mutator. The enumerated sub-space is exhaustive (stated in the evidence); the property as a whole quantifies over unbounded histories, hence exploration.',
+    note='Trusted: the reference model in vf/oracle/gridmodel.py. Operations are applied only when their documented precondition holds. Operands of + and embed are judged through the result only (they share block objects with it and are spent). Known finding: rename_rocktype after add_rocktype replaced an in-use rock type.',
+    design='DESIGN.md §3 C08'),
 }
 
 def main():
